@@ -269,18 +269,20 @@ func c13Scenarios(tier string) []*Scenario {
 		z := PipeCfg{Conc: 1, QL: -1, Graph: graphOne}
 		withP := mkDefs(map[string]PipeCfg{"p": p, "z": z})
 		withoutP := mkDefs(map[string]PipeCfg{"z": z})
-		pre := []XEvent{{Kind: "S", P: "p"}, {Kind: "Dok", Job: 1, Task: "a"}, {Kind: "Dok", Job: 1, Task: "b"}, {Kind: "S", P: "p"}, {Kind: "S", P: "p"}, {Kind: "R", Def: 1}}
-		for _, pr := range [][2]int{{6, 3}, {6, 4}, {6, 6}, {6, 2}, {6, 1}} {
+		// (only finished jobs of p: purging unfinished jobs of a dropped pipeline is the recorded C01 finding - it also leaves
+		// the wait list pointing at a purged job - and is not what this family is about)
+		pre := []XEvent{{Kind: "S", P: "p"}, {Kind: "Dok", Job: 1, Task: "a"}, {Kind: "Dok", Job: 1, Task: "b"}, {Kind: "S", P: "p"}, {Kind: "Dok", Job: 2, Task: "a"}, {Kind: "Dok", Job: 2, Task: "b"}, {Kind: "R", Def: 1}}
+		for _, pr := range [][2]int{{6, 3}, {6, 4}, {6, 6}} {
 			sel := []nop{ops[pr[0]], ops[pr[1]]}
 			scs = append(scs, &Scenario{
 				Name: "dropped-pipeline/pair/" + sel[0].n + "+" + sel[1].n,
-				Desc: "no retention rule; pipeline p (one finished, one running, one waiting job) was dropped by a reload; concurrent API callers",
+				Desc: "no retention rule; pipeline p (two finished jobs) was dropped by a reload; concurrent API callers",
 				Opts: func() WorldOpts {
 					return WorldOpts{Defs: []*definitionPipelinesDef{withP, withoutP}, WithStore: true, RealStore: c13Store()}
 				},
 				Prefix: pre,
 				Setup: func(w *World) {
-					w.Accepted = 3
+					w.Accepted = 2
 					for _, o := range sel {
 						w.SpawnDriver(o.op)
 					}
